@@ -459,6 +459,11 @@ def step (quiet : Bool) (ss : Slots) (line : String) : Slots × List String :=
       | some sl => let ss := setSlot ss s sl; (ss, "R ok" :: dumpQ quiet s sl)
       | none => (ss, [bad])
     | _, _ => (ss, [bad])
+  | ["swapbytes", kind, tok] =>
+    -- io::swapBytes on a value of the label type: the little-endian encoding reversed; this host is little-endian
+    match binCodec kind, int? tok with
+    | some (_, enc, _), some t => (ss, ["R ok bytes=" ++ hexOf (enc t).reverse ++ " be=0"])
+    | _, _ => (ss, [bad])
   | ["dump", s] =>
     match nat? s with
     | some s => (ss, dumpSlot s (getSlot ss s))
